@@ -66,6 +66,9 @@ def dec_class(s: str) -> str:
 # spec generation
 # ---------------------------------------------------------------------------------------------
 
+EXTRA_VALUES = [5, True, 1.5, "A B&c=d/\u00e9", "EXPIRE_TAKER", ["A", "B"], ["x y", "\u00e9&=", "z"], ["only"], 0]
+
+
 def gen_spec(r, client: Optional[str] = None) -> Dict[str, Any]:
     client = client or r.choice(["binance", "binance", "bitstamp"])
     if client == "binance":
@@ -97,6 +100,9 @@ def gen_spec(r, client: Optional[str] = None) -> Dict[str, Any]:
             a["kwargs"]["icebergQty"] = {"decimal": gen_decimal(r)}
         if acct != "spot" and r.random() < 0.4:
             a["side_effect"] = r.choice(["MARGIN_BUY", "AUTO_REPAY", "NO_SIDE_EFFECT"])
+        if r.random() < 0.25:
+            # keyword arguments are forwarded as they are: any value type a caller may pass, sequences included
+            a["kwargs"][r.choice(["selfTradePreventionMode", "strategyId", "futureOption"])] = r.choice(EXTRA_VALUES)
         return {"client": "binance", "name": name, "args": a}
     name = r.choice(["market", "limit", "limit", "instant", "x_market", "x_limit", "x_instant", "order_status", "cancel",
                      "open_orders", "balances", "balance", "ws_token", "x_order_info", "x_cancel", "req_limit"])
@@ -114,6 +120,8 @@ def gen_spec(r, client: Optional[str] = None) -> Dict[str, Any]:
         # Bitstamp's optional limit_price (opposite order) - only reachable through the raw client: the exchange-level
         # helper uses the same keyword for its own positional parameter
         a["kwargs"]["limit_price"] = {"decimal": gen_decimal(r)}
+    if r.random() < 0.25:
+        a["kwargs"][r.choice(["margin_mode", "leverage", "future_option"])] = r.choice(EXTRA_VALUES)
     return {"client": "bitstamp", "name": name, "args": a}
 
 
@@ -137,6 +145,7 @@ class Expect:
         self.equal: Dict[str, str] = {}       # param -> exact string
         self.decimals: Dict[str, D] = {}      # param -> numeric value that must arrive in plain notation
         self.absent: List[str] = []           # params that must not be transmitted
+        self.multi: Dict[str, List[str]] = {}  # param -> values of a sequence-valued argument, one field each
         self.reply: Any = {}
 
 
@@ -164,6 +173,8 @@ async def invoke(spec: Dict[str, Any], bn, bs, bn_ex, bs_ex) -> Tuple[Expect, An
             for k, v in kw.items():
                 if isinstance(v, D):
                     e.decimals[k] = v
+                elif isinstance(v, (list, tuple)):
+                    e.multi[k] = [str(x) for x in v]
                 else:
                     e.equal[k] = str(v)
             if mkw:
@@ -365,6 +376,8 @@ async def invoke(spec: Dict[str, Any], bn, bs, bn_ex, bs_ex) -> Tuple[Expect, An
         for k, v in kw.items():
             if isinstance(v, D):
                 e.decimals[k] = v
+            elif isinstance(v, (list, tuple)):
+                e.multi[k] = [str(x) for x in v]
             else:
                 e.equal[k] = str(v)
 
